@@ -336,7 +336,7 @@ def _canon_op_shallow(u: Universe, op: Operation, ext_values: dict[int, Any] | N
         tuple(r.type for r in op.results),
         tuple((k, op.attributes[k]) for k in sorted(op.attributes)),
         tuple((k, op.properties[k]) for k in sorted(op.properties)),
-        op.location,
+        getattr(op, "location", None),
         tuple(("ext", u.nm(eb.get(id(b), b))) for b in op._successors),
         len(op.regions),
     )
@@ -362,6 +362,157 @@ class C02Engine(IrEngineBase):
         "thorough": {"runs": 1_000_000, "wall_cap_s": 1750, "samples": 2},
     }
     group_bias = {"clone": 5, "dictedit": 2}
+
+    corpus: Any = None
+    full_ctx: Any = None
+    passes: Any = None
+    matched: Any = None
+
+    def prepare(self, tier: str, seed: int) -> None:
+        super().prepare(tier, seed)
+        if C02Engine.corpus is None:
+            import os
+
+            from xdsl.transforms import get_all_passes
+
+            from simverif.engines import streamsim
+
+            C02Engine.corpus = streamsim.build_corpus(min(16, os.cpu_count() or 1))
+            _, C02Engine.full_ctx = streamsim._contexts()
+            names = sorted(n for n in get_all_passes() if n not in ("mlir-opt",))
+            C02Engine.passes = [(n, get_all_passes()[n]) for n in names]
+            # (pass index, corpus chunk) pairs where the chunk comes from the pass's own filecheck file
+            m: list[tuple[int, int]] = []
+            for pi, (n, _) in enumerate(C02Engine.passes):
+                keys = {n, n.replace("-", "_")}
+                for ci, cn in enumerate(C02Engine.corpus.names):
+                    base = cn.rsplit("/", 1)[-1].split(".mlir")[0]
+                    if base in keys or any(k in cn for k in keys if len(k) > 8):
+                        m.append((pi, ci))
+            C02Engine.matched = m
+
+    def run(self, ch: Chooser, trace: bool) -> RunResult:
+        cfg = ch.stream("cfg")
+        if cfg.flag(1, 8):
+            return self._run_real_pass(cfg, trace)
+        return super().run(ch, trace)
+
+    def _run_real_pass(self, cfg: Any, trace: bool) -> RunResult:
+        """Second workload: a *registered* pass applied through ModulePass.apply_to_clone to a
+        module of the filecheck corpus (all dialects).  Judged: the original module is
+        bit-identical afterwards, its use lists gained nothing (no op of the copy refers to
+        a value or block of the original), and the returned module shares no object with
+        it.  Whatever the pass itself does to the copy - including raising - is not judged."""
+        import contextlib
+        import io
+        import warnings
+
+        from xdsl.parser import Parser
+
+        res = RunResult()
+        st = res.stats
+        tr: list[str] | None = [] if trace else None
+        corpus = C02Engine.corpus
+        st["workload.real_pass_apply_to_clone"] += 1
+        k = cfg.weighted((4, 2, 2))
+        if k == 0 and C02Engine.matched:
+            pi, ci = C02Engine.matched[cfg.choice(len(C02Engine.matched))]
+        elif k == 1:
+            pi = [i for i, (n, _) in enumerate(C02Engine.passes) if n in ("dce", "cse", "canonicalize")][cfg.choice(3)]
+            ci = cfg.choice(len(corpus.w2))
+        else:
+            pi = cfg.choice(len(C02Engine.passes))
+            ci = cfg.choice(len(corpus.w2))
+        pname, pfactory = C02Engine.passes[pi]
+        if tr is not None:
+            tr.append(f"real pass {pname}.apply_to_clone on corpus chunk {corpus.names[ci]}")
+        res.trace = tr
+        try:
+            module = Parser(C02Engine.full_ctx, corpus.w2[ci]).parse_module()
+            with warnings.catch_warnings():
+                warnings.simplefilter("ignore")
+                ps = pfactory()()
+        except Exception:  # noqa: BLE001 - pass needs arguments / chunk does not parse: nothing to run
+            st["real_pass.not_run"] += 1
+            if tr is not None:
+                tr.append("not run (pass needs arguments or chunk did not parse)")
+            return res
+        n_ops = sum(1 for _ in module.walk())
+        if n_ops > 600:
+            st["real_pass.skipped_too_large"] += 1
+            return res
+        u = Universe()
+        u.register(module)
+        try:
+            check_inv(u)
+        except InvFail:
+            st["real_pass.not_run"] += 1
+            return res
+        snap = snap_tree(u, module)
+        src_ids = {id(x) for x in u.closure(module)}
+        ret: Any = None
+        exc = ""
+        try:
+            arm_watchdog(20.0)
+            try:
+                with contextlib.redirect_stdout(io.StringIO()), contextlib.redirect_stderr(io.StringIO()), warnings.catch_warnings():
+                    warnings.simplefilter("ignore")
+                    ret = ps.apply_to_clone(C02Engine.full_ctx, module)
+            finally:
+                disarm_watchdog()
+        except WatchdogTimeout:
+            st["inconclusive.real_pass_slow"] += 1
+            if tr is not None:
+                tr.append("pass did not finish within 20 s of CPU time: inconclusive")
+            return res
+        except (RecursionError, MemoryError):
+            st["inconclusive.resource_exhaustion"] += 1
+            return res
+        except BaseException as e:  # noqa: BLE001 - a pass may reject the module (also via SystemExit)
+            if isinstance(e, KeyboardInterrupt):
+                raise
+            exc = type(e).__name__
+            st["real_pass.raised"] += 1
+        call = "ModulePass.apply_to_clone"
+
+        def bad(oracle: str, detail: str) -> RunResult:
+            res.violation = Violation(oracle, call, 1, f"{detail} (pass {pname}, corpus chunk {corpus.names[ci]})", f"{oracle}:{call}:real:{pname}")
+            if tr is not None:
+                tr.append(f"VIOLATION {oracle}: {detail}")
+            return res
+
+        if tr is not None:
+            tr.append(f"pass {'raised ' + exc if exc else 'returned'}")
+        if snap_tree(u, module) != snap:
+            return bad("clone-modified-source", "the original module is not identical to what it was before apply_to_clone")
+        try:
+            check_inv(u)
+        except InvFail as e:
+            return bad("clone-modified-source", f"after apply_to_clone the original module fails the structural invariant ({e.code}: {e.detail[:160]}): something outside it refers to its values or blocks")
+        if not exc:
+            new_mod = ret[1] if isinstance(ret, tuple) and len(ret) == 2 else None
+            if not isinstance(new_mod, Operation) or new_mod is module:
+                return bad("clone-result", "apply_to_clone did not return a new module")
+            changed = False
+            for x in new_mod.walk():
+                if id(x) in src_ids:
+                    return bad("clone-shares-object", f"operation {x.name} belongs to both the original module and the module returned by apply_to_clone")
+                for v in x._operands:
+                    if id(v) in src_ids:
+                        return bad("clone-shares-object", f"an operand of {x.name} in the returned module is a value of the original module")
+                for b in x._successors:
+                    if id(b) in src_ids:
+                        return bad("clone-shares-object", f"a successor of {x.name} in the returned module is a block of the original module")
+            try:
+                changed = canon(Universe(), new_mod) != canon(Universe(), module)
+            except Exception:  # noqa: BLE001
+                changed = True
+            st["reach.real_pass_changed_the_copy" if changed else "reach.real_pass_left_the_copy_as_is"] += 1
+            res.nontrivial = changed
+        st["reach.real_pass_checked"] += 1
+        res.steps = 1
+        res.fingerprint = (pi << 20) ^ ci
+        return res
 
     def begin_run(self, u: Universe) -> None:
         self._snaps = snap_all(u)
@@ -579,8 +730,23 @@ class C02Engine(IrEngineBase):
             st["reach.clone_with_outside_operands"] += 1
         return None
 
+    def evidence_extra(self, stats: Counter[str], tier: str) -> dict[str, Any]:
+        d = super().evidence_extra(stats, tier)
+        d["real_pass_workload"] = {k: v for k, v in sorted(stats.items()) if k.startswith("real_pass.") or k.startswith("workload.")}
+        d["real_pass_workload"]["registered_passes_used"] = len(C02Engine.passes or [])
+        d["real_pass_workload"]["(pass, own filecheck chunk) pairs"] = len(C02Engine.matched or [])
+        return d
+
+    def components(self) -> dict[str, list[str]]:
+        c = super().components()
+        c["real"] = c["real"] + [
+            "xdsl.passes.ModulePass.apply_to_clone with every registered pass that has default arguments (132 of 133; mlir-opt excluded: external process) on filecheck corpus modules of all dialects",
+        ]
+        return c
+
     def rule(self) -> str:
         return (
+            "(1 run in 8: one registered pass applied through apply_to_clone to one corpus module, original compared before/after) "
             "one case = one seeded history of 8-80 public IR calls in which about one step in five is a clone entry "
             "point (Operation.clone / clone_without_regions, Region.clone, Region.clone_into into empty or populated "
             "destinations at any index); at each clone: independent canonical form of copy == that of the source part, "
